@@ -19,6 +19,7 @@ from vsc.model.expr_array_subscript_model import ExprArraySubscriptModel
 from vsc.model.expr_bin_model import ExprBinModel
 from vsc.model.expr_cond_model import ExprCondModel
 from vsc.model.expr_in_model import ExprInModel
+from vsc.model.expr_partselect_model import ExprPartselectModel
 from vsc.model.expr_range_model import ExprRangeModel
 from vsc.model.expr_rangelist_model import ExprRangelistModel
 from vsc.model.expr_unary_model import ExprUnaryModel
@@ -178,7 +179,9 @@ class ConstraintCopyBuilder(ModelVisitor):
         
     def visit_constraint_unique(self, c:ConstraintUniqueModel):
         if self.do_copy_level > 0:
-            self.constraints.append(c.clone())
+            # Copy the terms, such that index references are resolved
+            self.constraints.append(ConstraintUniqueModel(
+                list(map(lambda e:self.expr(e), c.unique_l))))
         else:
             super().visit_constraint_unique(c)
         
@@ -213,6 +216,15 @@ class ConstraintCopyBuilder(ModelVisitor):
             self._expr = e
         else:
             super().visit_expr_indexed_fieldref(e)
+            
+    def visit_expr_partselect(self, e):
+        if self.do_copy_level > 0:
+            self._expr = ExprPartselectModel(
+                self.expr(e.lhs),
+                self.expr(e.upper),
+                None if e.lower is None else self.expr(e.lower))
+        else:
+            super().visit_expr_partselect(e)
             
     def visit_expr_range(self, r):
         if self.do_copy_level > 0:
